@@ -661,4 +661,24 @@ theorem C28_comp_vec_entry_unique (nOf nWrt t t' : Nat) (hO : 0 < nOf) (hW : 0 <
 example : vecRow 2 3 (1 * (2 * 3) + (1 * 3 + 2)) = 1 * 2 + 1 ∧ vecCol 2 3 (1 * (2 * 3) + (1 * 3 + 2)) = 1 * 3 + 2 := by
   decide
 
+
+/-! ## Summary: training outputs at training inputs -/
+
+/-- The four interpolation clauses side by side (weighted: exact hit; linear: any normal, both
+branches; RBF and Kriging: given the certificate of the linear solve for row `i`). -/
+theorem C28_interp_at_train {K : Type} [Field K] [LinearOrder K] [IsStrictOrderedRing K] :
+    (∀ (tvm tvr : K) (p : Nat) (ds ys : List K) (y : K), tvr ≠ 0 → ds.length = ys.length →
+        (0 : K) ∈ ds → (∀ q ∈ ds.zip ys, q.1 = 0 → q.2 = y) → weightedPredict tvm tvr p ds ys = y) ∧
+    (∀ (tvm tvr : K) (nx : List K) (nz : K) (p0 : List K) (y0 : K), tvr ≠ 0 →
+        linearPredict tvm tvr nx nz p0 y0 p0 = y0) ∧
+    (∀ (tvm tvr : K) (m : Nat) (e : RbfEntry) (idx : List Nat) (ds : List K) (dN : K) (W : List K)
+        (yi : K), tvr ≠ 0 → dot (rbfDenseRow m e idx ds dN) W = normalize tvm tvr yi →
+        rbfPredict tvm tvr m e idx ds dN W = yi) ∧
+    (∀ (ymean ystd : K) (Ri α : List K) (yi : K), ystd ≠ 0 →
+        dot Ri α = normalize ymean ystd yi → krigPredict ymean ystd Ri α = yi) :=
+  ⟨fun tvm tvr p ds ys y h1 h2 h3 h4 => C28_interp_at_train_weighted tvm tvr p ds ys y h1 h2 h3 h4,
+   fun tvm tvr nx nz p0 y0 h => C28_interp_at_train_linear tvm tvr nx nz p0 y0 h,
+   fun tvm tvr m e idx ds dN W yi h1 h2 => C28_interp_at_train_rbf tvm tvr m e idx ds dN W yi h1 h2,
+   fun ymean ystd Ri α yi h1 h2 => C28_interp_at_train_kriging ymean ystd Ri α yi h1 h2⟩
+
 end OMV.C28
